@@ -178,6 +178,57 @@ mod verif_kani_trie {
         core::mem::forget(all);
     }
 
+    /// greedy_tokenize on one- and two-byte texts: at each position the longest token along the first-match path is emitted
+    /// (whatever its id is - id 0 included), a byte no token starts with is skipped
+    #[kani::proof]
+    #[kani::unwind(7)]
+    fn trie_greedy_tokenize_short() {
+        let (trie, s) = any_trie();
+        let bytes: [u8; 2] = kani::any();
+        let len: usize = kani::any();
+        kani::assume(len >= 1 && len <= 2);
+        let toks = trie.greedy_tokenize(&bytes[..len]);
+        let tok_of = |k: usize| if s.tok[k] == NO_TOKEN { None } else { Some(s.tok[k]) };
+        let n1 = ref_child(&s, 0, bytes[0]);
+        let t1 = n1.and_then(tok_of);
+        if len == 1 {
+            match t1 {
+                Some(t) => assert!(toks.len() == 1 && toks[0] == t),
+                None => assert!(toks.len() == 0),
+            }
+        } else {
+            let n12 = n1.and_then(|k| ref_child(&s, k, bytes[1]));
+            let t12 = n12.and_then(tok_of);
+            let t2 = ref_child(&s, 0, bytes[1]).and_then(tok_of);
+            if let Some(t) = t12 {
+                assert!(toks.len() == 1 && toks[0] == t); // the two-byte token wins
+            } else {
+                // first byte alone (or skipped), then the second byte alone (or skipped)
+                let mut want = [0u32; 2];
+                let mut n = 0;
+                if let Some(t) = t1 {
+                    want[n] = t;
+                    n += 1;
+                }
+                if let Some(t) = t2 {
+                    want[n] = t;
+                    n += 1;
+                }
+                assert!(toks.len() == n);
+                if n >= 1 {
+                    assert!(toks[0] == want[0]);
+                }
+                if n == 2 {
+                    assert!(toks[1] == want[1]);
+                }
+            }
+        }
+        kani::cover!(toks.len() == 2);
+        kani::cover!(toks.len() == 1 && toks[0] == 0);
+        core::mem::forget(trie);
+        core::mem::forget(toks);
+    }
+
     // vacuity guard (must FAIL): claims every byte string of length 1 is found
     #[kani::proof]
     #[kani::unwind(7)]
